@@ -237,8 +237,10 @@ for _s in shapes(3):
         _tier = "quick" if len(_s) <= 2 else "thorough"
         _want = ("ok",)
 
-        def _mk(s=_s, d=_d, seed=_seed, tier=_tier):
-            @unit("C19/ToyParser.back-end/text=%s/data=%s" % ("".join(s) or "-", ",".join(str(x) for x in d) or "-"), tier=tier, expect_reach=("ok",))
+        # (three label declarations over the two label names are a duplicate on every path: that shape can only reach
+        #  the "duplicate" outcome)
+        def _mk(s=_s, d=_d, seed=_seed, tier=_tier, want=("ok",) if "".join(_s).count("L") <= 2 else ("duplicate",)):
+            @unit("C19/ToyParser.back-end/text=%s/data=%s" % ("".join(s) or "-", ",".join(str(x) for x in d) or "-"), tier=tier, expect_reach=want)
             def u():
                 backend_unit(s, d, seed)
         _mk()
